@@ -27,8 +27,10 @@ RULE = ("cases = directive lists printed as C files: (a) trees of the property's
         "(c) repeated macros, #define inside, unbalanced nesting; non-trivial = at least two conditionals and one region; "
         "distinct = canonical op text")
 EXPLANATION = ("Lean theorems about an executable copy of getConfigs/cfg/hasDefine/isUndefined and of the selection loop of "
-               "checkInternal: main theorem every_region_covered_fixElse (the code as it is since commit 4aed040 covers every region of "
-               "every family tree whose `#if !defined` conditionals contain regions only); the full statement is refuted by a proved "
+               "checkInternal: headline every_region_analysed_partial (family tree, `#if !defined` conditionals containing regions only = ndLeaf, "
+               "|getConfigs()| <= --max-configs, which length_getConfigs_le bounds by 1 + 2 * #conditionals: every region is live in an ANALYSED "
+               "configuration), built on every_region_covered_fixElse (the fold as it is since commit 4aed040; obligation "
+               "T:fold-variant-is-Flags.code ties the source to that variant); the full statement is refuted by a proved "
                "counterexample for the code as it is (F16, known finding) and for the fold before 4aed040 (F15, fixed), "
                "proved for exactly the trees accepted by the decidable predicate `safe` (sufficiency and necessity: "
                "every_region_covered_iff_safe) and for every tree under the repaired algorithm; -D/-U/budget theorems. Tie: in-process correspondence of configurations and of per-configuration "
@@ -41,8 +43,10 @@ THEOREMS = ["Cppcheck.Configs.every_region_covered_of_safe", "Cppcheck.Configs.r
             "Cppcheck.Configs.safe_repaired", "Cppcheck.Configs.every_region_covered_repaired",
             "Cppcheck.Configs.analysed_all_within_budget", "Cppcheck.Configs.covered_within_budget",
             "Cppcheck.Configs.D_in_every_config", "Cppcheck.Configs.U_in_no_extracted_config", "Cppcheck.Configs.U_in_no_config",
-            "Cppcheck.Configs.U_in_no_config_D", "Cppcheck.Configs.U_effective", "Cppcheck.Configs.D_effective",
-            "Cppcheck.Configs.reach_spec"]
+            "Cppcheck.Configs.U_in_no_config_D", "Cppcheck.Configs.reach_spec",
+            "Cppcheck.Configs.length_getConfigs_le", "Cppcheck.Configs.every_region_analysed_partial",
+            "Cppcheck.Configs.every_region_analysed_of_size_partial", "Cppcheck.Configs.every_region_analysed_counterexample",
+            "Cppcheck.Configs.every_region_covered_ndLeaf_partial", "Cppcheck.Configs.live_spec_eq_driver"]
 MODULES = ["Cppcheck.Props.C12"]
 
 CPLUSPLUS = "__cplusplus"
@@ -632,6 +636,18 @@ def run(ctx, res):
     fl = detect_flags(res)
     FLAGS[:] = fl if fl else [True, False]
     res.extra["fold_variant"] = dict(fixElse=FLAGS[0], fixNotDef=FLAGS[1], recognised=bool(fl))
+    # the theorems about "the code" are stated for getConfigs = getConfigsWith Flags.code: the variant found in the source must be that one
+    rc, fo, err = core.run_lines(drv, [], ["flags"])
+    lean_code = fo[0][2:] if fo and fo[0].startswith("F ") else "?"
+    res.oblig("T:fold-variant-is-Flags.code", bool(fl) and flagstr(fl) == lean_code, "translation",
+              "" if (fl and flagstr(fl) == lean_code) else
+              "the fold in lib/preprocessor.cpp is variant %s, the theorems about getConfigs (every_region_analysed_partial, "
+              "every_region_covered_fixElse, ..) are about Flags.code = %s" % (flagstr(fl) if fl else "unrecognised", lean_code))
+    res.assumptions = [
+        "'the number of guard combinations does not exceed --max-configs' is read as |getConfigs()| <= maxConfigs; length_getConfigs_le bounds it by 1 + 2 * #conditionals",
+        "coverage under -U of the tree's own macros and the string-level -U statement for -D combined with --force/--max-configs are decided per run by P_impl (Lean `reach`/`emit` as specification) and the CLI tie, not by a theorem",
+        "region labels are pairwise distinct (necessity theorem); no #elif, #error, include guards, library defines, #if expressions other than defined()/!defined()",
+    ]
 
     # ---- corpus first (witnesses of the known findings, past disagreements) ------------------------------------------
     corpus = load_corpus()
